@@ -92,6 +92,15 @@ def run(tier, seed, replay=None):
             mstates += r.distinct
             mtrans += r.generated
             cmds.append(r.cmd)
+        # the job pool of the file-oriented commands (CmdDump.Main / CmdRestore.Main: jobs in a channel, P workers, a WaitGroup): WorkerPool.tla
+        for wcfg in ("WorkerPool.cfg", "WorkerPool_b.cfg"):
+            rw = vlib.tlc(sc, "WorkerPool", wcfg, workers=4, timeout=600)
+            if rw.rc != 0:
+                raise Infra("WorkerPool model check failed on %s (rc=%s, %s)\n%s" % (wcfg, rw.rc, rw.violated, rw.out[-2000:]))
+            mstates += rw.distinct
+            mtrans += rw.generated
+        if not vlib.tlc(sc, "WorkerPool", "WorkerPool_dev.cfg", workers=4, timeout=600).violated:
+            raise Infra("WorkerPool.tla: counting a job off before it is worked on no longer violates MainAfterAll - the model is vacuous")
         # the as-built chunk race must still be what the model says it is (witness exists)
         r = vlib.tlc(sc, "FullSync", "FullSync_rewrite_asbuilt.cfg", workers=8, timeout=3000)
         if r.violated != "RightContent":
